@@ -8,7 +8,7 @@
    *_partial theorem, validated on each run (dur-* / hrt-* streams); instances and the sharpness of D9 are proved below by computation. *)
 From Coq Require Import ZArith List Bool.
 From Coq Require Import Floats.SpecFloat.
-From PV Require Import Lib.PyBase Spec.TdFloat Model.Duration Proofs.TdFloatFacts Proofs.C09Facts.
+From PV Require Import Lib.PyBase Spec.TdFloat Model.Duration Proofs.TdFloatFacts Proofs.C09Facts Proofs.FloatRoundTrip Proofs.FloatRoundTripC09.
 Import ListNotations.
 Open Scope Z_scope.
 
@@ -192,3 +192,70 @@ Print Assumptions float_split_exact_everywhere_refuted.
 Theorem roundtrip_beyond_D9_refuted : exists N, B33 <= N /\ roundtripb N = false.
 Proof. exact roundtrip_beyond_2_33_refuted. Qed.
 Print Assumptions roundtrip_beyond_D9_refuted.
+
+(* ---- the float premise is a THEOREM (Proofs/FloatRoundTrip*.v, via Flocq's correctness of binary64 division, subtraction and multiplication;
+   depends on the standard library's real-number axioms, listed by Print Assumptions below and in the evidence trusted base) *)
+Theorem float_split_exact_on_D9_holds : float_split_exact_on_D9.
+Proof. exact float_split_exact_on_D9_proved. Qed.
+Print Assumptions float_split_exact_on_D9_holds.
+
+(* timedelta(seconds=td.total_seconds()) == td exactly, for every td below 2^33 seconds *)
+Theorem timedelta_float_roundtrip_exact : forall N : Z, Z.abs N < 2 ^ 33 * 10 ^ 6 -> td_of_float_seconds (total_seconds N) = Ok N.
+Proof. exact td_roundtrip_exact. Qed.
+Print Assumptions timedelta_float_roundtrip_exact.
+
+(* construction_partial with its premise discharged *)
+Theorem construction :
+  forall days seconds us ms mi h w years months N,
+  td_of_int_args (days + YM years months) seconds us ms mi h w = Ok N ->
+  D9 N (YM years months * 86400) ->
+  exists total, duration_new days seconds us ms mi h w years months =
+                Ok (exact_dur N total years months [years; months; w; days; h; mi; seconds; us + ms * 1000]).
+Proof. exact (duration_new_exact_partial float_split_exact_on_D9_proved). Qed.
+Print Assumptions construction.
+
+(* components_sign_ranges_sum_partial with its premise discharged *)
+Theorem components_sign_ranges_sum :
+  forall days seconds us ms mi h w years months d,
+  duration_new days seconds us ms mi h w years months = Ok d ->
+  let R := d_N d - YM years months * 86400000000 in
+  D9 (d_N d) (YM years months * 86400) ->
+  comp_sum d = R
+  /\ Z.abs (d_rdays d) < 7 /\ Z.abs (dur_hours d) < 24 /\ Z.abs (dur_minutes d) < 60
+  /\ Z.abs (dur_remaining_seconds d) < 60 /\ Z.abs (d_micro d) < 1000000
+  /\ (0 <= R -> 0 <= d_weeks d /\ 0 <= d_rdays d /\ 0 <= dur_hours d /\ 0 <= dur_minutes d /\ 0 <= dur_remaining_seconds d /\ 0 <= d_micro d)
+  /\ (R <= 0 -> d_weeks d <= 0 /\ d_rdays d <= 0 /\ dur_hours d <= 0 /\ dur_minutes d <= 0 /\ dur_remaining_seconds d <= 0 /\ d_micro d <= 0).
+Proof. exact (components_partial float_split_exact_on_D9_proved). Qed.
+Print Assumptions components_sign_ranges_sum.
+
+(* rebuild_from_components_partial with its premise discharged *)
+Theorem rebuild_from_components :
+  forall days seconds us ms mi h w years months d,
+  duration_new days seconds us ms mi h w years months = Ok d ->
+  D9 (d_N d) (YM years months * 86400) ->
+  exists d', duration_rebuild d = Ok d'
+    /\ d_N d' = d_N d /\ d_total d' = d_total d /\ d_years d' = d_years d /\ d_months d' = d_months d
+    /\ d_weeks d' = d_weeks d /\ d_days d' = d_days d /\ d_rdays d' = d_rdays d /\ d_seconds d' = d_seconds d /\ d_micro d' = d_micro d.
+Proof. exact (rebuild_partial float_split_exact_on_D9_proved). Qed.
+Print Assumptions rebuild_from_components.
+
+(* in_seconds_exact_partial with its premise discharged *)
+Theorem in_seconds_exact :
+  forall d, d_abs d = false -> Z.abs (d_N d) < B33 -> dur_in_seconds d = Ok (Z.quot (d_N d) 1000000).
+Proof. exact (in_seconds_partial float_split_exact_on_D9_proved). Qed.
+Print Assumptions in_seconds_exact.
+
+(* absolute_duration_spec_partial with its premise discharged *)
+Theorem absolute_duration_spec :
+  forall days seconds us ms mi h w years months d,
+  absolute_duration_new days seconds us ms mi h w years months = Ok d ->
+  Z.abs (d_N d) < B33 ->
+  td_of_int_args days seconds us ms mi h w = Ok (d_N d)
+  /\ d_years d = Z.abs years /\ d_months d = Z.abs months
+  /\ d_micro d = Z.abs (d_N d) mod 1000000
+  /\ d_seconds d = Z.abs (d_N d) / 1000000 mod 86400
+  /\ d_weeks d * 7 + d_rdays d = Z.abs (d_N d) / 86400000000 /\ 0 <= d_rdays d < 7 /\ 0 <= d_weeks d
+  /\ comp_sum d = Z.abs (d_N d)
+  /\ dur_total_seconds d = total_seconds (Z.abs (d_N d)).
+Proof. exact (absolute_duration_partial float_split_exact_on_D9_proved). Qed.
+Print Assumptions absolute_duration_spec.
